@@ -14,6 +14,7 @@ PROFILE = {
 
 def run(ctx, res):
     import scenarios
-    fam = [] if ctx.replay else scenarios.pick(scenarios.family_joins(), 500 if ctx.tier == "quick" else 10 ** 6, ctx.seed)
+    fam = [] if ctx.replay else (scenarios.pick(scenarios.family_joins(), 500 if ctx.tier == "quick" else 10 ** 6, ctx.seed)
+                                 + scenarios.family_suffix())
     pipeprop.run(ctx, res, "C06", PROFILE, n_quick=300, n_thorough=6000, probe_ids=("F30", "F31"), extra_cases=fam)
     res.coverage["scenario_grid"] = {"family": "joins (left prefix x right prefix x how x on x follower)", "cases": len(fam)}
